@@ -26,7 +26,11 @@ package c16
 //   - -a is applied to string, integer and boolean annotations only (the text a map
 //     or a float is matched against is not documented); patterns hold no '='.
 //   - Non-repeatable options (-l -L -c -C --id-list) are given at most once.
-//   - --approx-pattern is not in the statement's list of criteria (its matcher is C10's).
+//   - --approx-pattern (the approximate "sequence pattern" criterion) with its modifiers
+//     --pattern-error, --allows-indels, --only-forward: see the Domain decisions of
+//     grep_approx_test.go.  The other options of `obigrep --help` are not selection
+//     options (input / output formats, compression, --no-order, --skip-empty, profiling:
+//     the subject of the format properties).
 //   - Taxonomic restrictions: every record carries a taxid that is a node of the
 //     dump, -r/-i take taxids of nodes (the rest is C14's subject).
 //   - Paired inputs are always written with -o NAME.EXT (on stdout only the forward
@@ -75,6 +79,12 @@ type grepCase struct {
 	OutFile       bool      `json:"out_file,omitempty"` // -o instead of stdout (always with mates)
 	MaxCPU        int       `json:"max_cpu,omitempty"`
 	Batch         int       `json:"batch,omitempty"`
+	// modifiers of --approx-pattern (grep_approx_test.go)
+	PatErr          int  `json:"pattern_error,omitempty"`
+	PatErrZero      bool `json:"pattern_error_0_written,omitempty"` // `--pattern-error 0` written although it is the default
+	Indels          bool `json:"allows_indels,omitempty"`
+	OnlyForward     bool `json:"only_forward,omitempty"`
+	ApproxModsFirst bool `json:"approx_modifiers_first,omitempty"` // written before the selection options instead of after them
 }
 
 func (c *grepCase) key() uint64 {
@@ -84,7 +94,7 @@ func (c *grepCase) key() uint64 {
 
 // expected selection: indices kept, in input order.
 func (c *grepCase) expected() (kept []bool, why []string, err error) {
-	sel := gSelection{Opts: c.Opts, IDList: c.IDList, Tree: c.Tree}
+	sel := gSelection{Opts: c.Opts, IDList: c.IDList, Tree: c.Tree, Approx: c.approx()}
 	kept = make([]bool, len(c.Recs))
 	why = make([]string, len(c.Recs))
 	for i, r := range c.Recs {
@@ -167,6 +177,9 @@ func checkGrep(c grepCase) error {
 		}
 		args = append(args, "-t", "tax")
 	}
+	if c.ApproxModsFirst {
+		args = append(args, c.approxArgs()...)
+	}
 	for _, o := range c.Opts {
 		name := o.Name
 		if o.Long {
@@ -187,6 +200,9 @@ func checkGrep(c grepCase) error {
 		default:
 			args = append(args, name, o.Val)
 		}
+	}
+	if !c.ApproxModsFirst {
+		args = append(args, c.approxArgs()...)
 	}
 	if c.Invert {
 		if c.InvertLong {
@@ -408,6 +424,11 @@ func gGrepClasses(c *grepCase) (bool, []string) {
 	}
 	if c.OutFile {
 		cl = append(cl, "grep:out_file")
+	}
+	if c.hasApprox() { // the modifiers count as options given
+		_, acl := gApproxLabels(c)
+		cl = append(cl, acl...)
+		nopt += len(c.approxArgs())
 	}
 	return nopt >= 2 && sel == "some", cl
 }
